@@ -52,6 +52,8 @@ def step (st : St) (op : List String) (impl : List String) : St × String × Opt
     ({ q := q, g := g }, fmtState q, withState g impl none)
   | ["msg", id, ou, key, ppi, len, h] =>
     ({ st with g := st.g.addMsg (parseNat! id) (ou == "o") (parseNat! key) (parseNat! ppi) (parseNat! len) h }, "", none)
+  | ["abandon", id] => ({ st with g := st.g.noteAbandon (parseNat! id) }, "", none)
+  | ["drained"] => (st, fmtState st.q, withState st.g impl st.g.observeDrained)
   | "push" :: kind :: t :: si :: ssn :: mid :: fsn :: fl :: ppi :: len :: seed :: rest =>
     let c : _root_.Reasm.Chunk :=
       { tsn := tsn t, si := BitVec.ofNat 16 (parseNat! si), ssn := BitVec.ofNat 16 (parseNat! ssn), mid := tsn mid,
